@@ -224,12 +224,13 @@ func vfcRun(scn *vfcScn) (*vfcResult, error) {
 	finish := func(at *vfcAttempt, err error) {
 		at.OK = err == nil
 		at.Err = vfcErrClass(err)
-		settle(at, err != nil)
-		st := "ok"
-		if err != nil {
-			st = "er"
+		if err == nil {
+			settle(at, false)
+			d.Log(fmt.Sprintf("E:%d:ok", at.Batch))
+		} else {
+			d.Log(fmt.Sprintf("E:%d:er", at.Batch))
+			settle(at, true)
 		}
-		d.Log(fmt.Sprintf("E:%d:%s", at.Batch, st))
 		res.Attempts = append(res.Attempts, *at)
 	}
 
@@ -729,6 +730,7 @@ func vfcOne(s *vfutil.Session, idx int, scn *vfcScn) {
 	}
 	seen := map[string]bool{}
 	for _, v := range viols {
+		s.Count("viol_" + v.what)
 		if seen[v.what] {
 			continue
 		}
